@@ -86,7 +86,8 @@ Step ==
             /\ Top.h => Top.n = 0
             /\ ~Top.h => (Top.loaded \/ Top.done)
             /\ stack' = SubSeq(stack, 1, Len(stack) - 1) /\ held' = held \cup {e[2]}
-            /\ UNCHANGED <<vis, forced>>
+            /\ forced' = IF Top.done THEN forced \ {e[2]} ELSE forced    \* a recomputation that succeeded un-forces the task
+            /\ UNCHANGED vis
        [] e[1] = "DX" ->     \* the request raised: nothing is held afterwards
             /\ InFrameOf(e[2])
             /\ stack' = SubSeq(stack, 1, Len(stack) - 1) /\ held' = held \ {e[2]}
